@@ -38,6 +38,10 @@ CLAIM = {
 
 POOL = ["x0", "x1", "x2", "x3", "x4", "x5"]
 GLOBALS = POOL + ["g0", "g1"]
+# names of the Go universe scope that are legal member names: inside the class a bare `min` / `len(x)` must denote the
+# member (class member beats universe in cl's compileIdent); they are NOT declared at package level
+UNIVERSE_FIELDS = ["min", "max", "cap", "real", "string", "error", "any", "iota", "nil", "true"]
+UNIVERSE_METHODS = ["len", "copy", "new", "close", "clear", "imag"]
 
 PKG_COMMON = '''package %s
 
@@ -98,11 +102,16 @@ class ClassGen:
         nf = 1 + rng.below(4)
         self.fields = []
         while len(self.fields) < nf:
-            f = rng.choice(POOL)
+            f = rng.choice(POOL + UNIVERSE_FIELDS[:4]) if rng.below(4) else rng.choice(UNIVERSE_FIELDS)
             if f not in self.fields:
                 self.fields.append(f)
         self.nm = 1 + rng.below(4)
         self.mnames = ["m%d" % i for i in range(self.nm)]
+        for i in range(self.nm):
+            if rng.below(4) == 0:
+                u = rng.choice(UNIVERSE_METHODS)
+                if u not in self.mnames:
+                    self.mnames[i] = u
         self.hist = {}
         self.methods = []
         for i in range(self.nm):
@@ -277,6 +286,29 @@ class ClassGen:
         return L
 
 
+def witness_class(name):
+    """fixed (seed independent): fields `min, max int`, methods len / clamp that use them and each other by bare name"""
+    c = ClassGen(vlib.SplitMix(7), name)
+    c.fields = ["min", "max"]
+    c.mnames = ["clamp", "len"]
+    c.methods = [
+        ("clamp", "v", [["if", ["lt", ["id", "v"], ["id", "min"]], [["return", ["id", "min"]]], []],
+                        ["assign", "max", ["call", "len", ["id", "v"]]],
+                        ["print", ["id", "max"]],
+                        ["return", ["add", ["id", "max"], ["id", "min"]]]]),
+        ("len", "a", [["assign", "min", ["add", ["id", "min"], ["id", "a"]]],
+                      ["define", "max", ["mul", ["id", "min"], "2"]],
+                      ["print", ["id", "max"]],
+                      ["return", ["add", ["id", "max"], ["this", "max"]]]]),
+    ]
+    c.calls = [("a", "clamp", 3), ("b", "clamp", 0), ("a", "len", 2), ("b", "len", -1), ("a", "clamp", 1)]
+    c.specs = [("ids", ["min", "max"], "int", None)]
+    c.pre, c.post = ["const"], []
+    c.static = c.recvfn = False
+    c.hist = {"fixed-witness-universe-names": 1}
+    return c
+
+
 def parse_model(l):
     return dict(t.split("=", 1) for t in l.split(" ") if "=" in t)
 
@@ -294,7 +326,7 @@ def run(ctx):
 
     nclasses = ctx.n(24, 600)
     per_pkg = 8
-    classes = [ClassGen(ctx.rng, "K%d" % i) for i in range(nclasses)]
+    classes = [ClassGen(ctx.rng, "K%d" % i) for i in range(nclasses - 1)] + [witness_class("K%d" % (nclasses - 1))]
     rc, mout = ctx.run([model], input="\n".join(c.model_line() for c in classes) + "\n")
     ml = mout.splitlines()
     if rc != 0 or len(ml) != len(classes) or any(l.startswith("BADINPUT") for l in ml):
@@ -470,7 +502,9 @@ func main() {
     ctx.cover(evaluations=nrun + len(tc), distinct_nontrivial=len(set(c.model_line() for c in classes)),
               samples=[{"class": classes[i].model_line()[:700], "observed_class_form": bi[3 * i] if 3 * i < len(bi) else None,
                         "model": bm[3 * i] if 3 * i < len(bm) else None} for i in (0, len(classes) // 2)],
-              rule="%d seeded classes (1-4 int fields from a 6-name pool that is ALSO declared at package level, 1-4 one-parameter "
+              rule="%d classes (the last one a fixed witness with fields min, max and methods len, clamp; the others seeded: 1-4 int fields "
+                   "from a 6-name pool that is ALSO declared at package level plus names of the Go universe scope (min, max, cap, real, string, "
+                   "error, any, iota, nil, true; methods len, copy, new, close, clear, imag) used by their bare names, 1-4 one-parameter "
                    "methods with nested if/else, := shadowing fields/parameters, bare and this.-qualified field access, bare and "
                    "this.-qualified calls of later methods; var block with grouped names, tags, embedded T, *T, *pkg.T, pkg.T, standing "
                    "after the import and after/before const and type declarations in seeded order; optional static method and "
